@@ -93,7 +93,14 @@ Definition take_order (c : call) (o : oracle) : option (list string) * list (lis
 Definition do_call (w : world) (o : oracle) (c : call) (ord : option (list string)) : fs * res :=
   let e := mkEnv (o_gran o) (o_atime o) ord in
   match o_fault o with
-  | Some (n, er) => if (significant c && Nat.eqb n (o_ncalls o))%bool then (w_fs w, RErr er) else sem (w_fs w) e c
+  | Some (n, er) =>
+      if (significant c && Nat.eqb n (o_ncalls o))%bool
+      then (* a failing close still releases the descriptor (Linux semantics) *)
+           match c with
+           | CClose _ | CCloseDir _ => (fst (sem (w_fs w) e c), RErr er)
+           | _ => (w_fs w, RErr er)
+           end
+      else sem (w_fs w) e c
   | None => sem (w_fs w) e c
   end.
 
